@@ -224,6 +224,10 @@ func (x *Explorer) Run() error {
 							atomic.AddInt64(&x.ObsLogs, 1)
 						}
 						if rule != "" {
+							if strings.HasPrefix(what, "hang:") {
+								// a stuck handler keeps spinning in its goroutine: stop exploring instead of piling them up
+								atomic.StoreInt32(&capped, 1)
+							}
 							sig := rule
 							violMu.Lock()
 							if !violSeen[sig] {
